@@ -8,8 +8,9 @@
 (* actions of an attempt (as in Queue.tla), Crash at any instant in two    *)
 (* disk strengths and with torn writes, and Restart (readDiskQueue).       *)
 (*                                                                         *)
-(* Disk model. hdr/body: "absent" | "dirty" (exists, content not known to  *)
-(* be durable) | "synced".  meta/metaNew: NoFile or [c, s] with content c  *)
+(* Disk model. hdr/body: "absent" | "partial" (created, content not yet    *)
+(* complete) | "dirty" (complete, not known to be durable) | "synced" |     *)
+(* "lost" (content damaged by a crash).  meta/metaNew: NoFile or [c, s] with content c  *)
 (* = "empty" | "torn" | [to, tries] and s = fsynced.  "ordered" crash:     *)
 (* every completed operation survives.  "strong" crash: additionally all   *)
 (* not-yet-fsynced file data is lost (renames and unlinks survive).        *)
@@ -19,6 +20,11 @@
 (*   "RetryBeforePersist" the retry is dispatched from memory before the   *)
 (*                        metadata update reached the disk                 *)
 (*   "MetaRemovedFirst"   removeFromDisk removes .meta before header/body  *)
+(*   "MetaBeforeSync"     storeNewMessage renames .meta into place before  *)
+(*                        header and body are fsynced (the order before    *)
+(*                        the repair C10-F27)                              *)
+(*   "MetaBeforeBody"     storeNewMessage writes .meta before it copies    *)
+(*                        the body into the spool                          *)
 (***************************************************************************)
 EXTENDS QueueDiskObs, TLC, SequencesExt, Json
 
@@ -54,8 +60,13 @@ Dedup(s) == LET RECURSIVE D(_, _)
             IN D(1, <<>>)
 Lists == UNION {[1..k -> Rcpts] : k \in 1..MaxList}
 
-StoreChain  == <<"create:hdr", "write:hdr", "create:body", "write:body", "create:metanew",
-                 "write:metanew", "sync:metanew", "rename:meta", "sync:hdr", "sync:body">>
+MetaOps == <<"create:metanew", "write:metanew", "sync:metanew", "rename:meta">>
+StoreChain  ==
+  IF "MetaBeforeBody" \in Devs
+  THEN <<"create:hdr", "write:hdr">> \o MetaOps \o <<"create:body", "write:body", "sync:hdr", "sync:body">>
+  ELSE IF "MetaBeforeSync" \in Devs
+  THEN <<"create:hdr", "write:hdr", "create:body", "write:body">> \o MetaOps \o <<"sync:hdr", "sync:body">>
+  ELSE <<"create:hdr", "write:hdr", "create:body", "write:body", "sync:hdr", "sync:body">> \o MetaOps
 UpdateChain == IF "RenameBeforeSync" \in Devs
                THEN <<"create:metanew", "write:metanew", "rename:meta", "sync:meta">>
                ELSE <<"create:metanew", "write:metanew", "sync:metanew", "rename:meta">>
@@ -82,12 +93,12 @@ Init == \E c \in [partial : BOOLEAN, list : Lists] : InitWith(c)
 
 (* ---- file-system effects ------------------------------------------------ *)
 Apply(d, o, content) ==
-  CASE o = "create:hdr"     -> [d EXCEPT !.hdr = "dirty"]
+  CASE o = "create:hdr"     -> [d EXCEPT !.hdr = "partial"]
     [] o = "write:hdr"      -> d
-    [] o = "sync:hdr"       -> [d EXCEPT !.hdr = IF @ = "absent" THEN @ ELSE "synced"]
-    [] o = "create:body"    -> [d EXCEPT !.body = "dirty"]
+    [] o = "sync:hdr"       -> [d EXCEPT !.hdr = IF @ = "dirty" THEN "synced" ELSE @]
+    [] o = "create:body"    -> [d EXCEPT !.body = "partial"]
     [] o = "write:body"     -> d
-    [] o = "sync:body"      -> [d EXCEPT !.body = IF @ = "absent" THEN @ ELSE "synced"]
+    [] o = "sync:body"      -> [d EXCEPT !.body = IF @ = "dirty" THEN "synced" ELSE @]
     [] o = "create:metanew" -> [d EXCEPT !.metaNew = MF("empty", FALSE, <<>>, ZeroTries)]
     [] o = "write:metanew"  -> [d EXCEPT !.metaNew = MF("ok", FALSE, content.to, content.tries)]
     [] o = "sync:metanew"   -> [d EXCEPT !.metaNew = IF @.k = "nofile" THEN @ ELSE [@ EXCEPT !.s = TRUE]]
@@ -97,6 +108,15 @@ Apply(d, o, content) ==
     [] o = "remove:hdr"     -> [d EXCEPT !.hdr = "absent"]
     [] o = "remove:body"    -> [d EXCEPT !.body = "absent"]
     [] o = "remove:meta"    -> [d EXCEPT !.meta = NoFile]
+
+\* a file is complete once the chain has moved past its write (the code issues one or several
+\* write calls, or none for an empty body, and nothing says which one is the last)
+Passed(ch, nj, w) == \E i \in 1..Len(ch) : ch[i] = w /\ i < nj
+Complete(d, ch, nj) ==
+  [d EXCEPT !.hdr  = IF @ = "partial" /\ Passed(ch, nj, "write:hdr") THEN "dirty" ELSE @,
+            !.body = IF @ = "partial" /\ Passed(ch, nj, "write:body") THEN "dirty" ELSE @]
+\* what would be handed to the target may differ from what the queue was given
+MayBeDamaged == disk.hdr \in {"partial", "lost"} \/ disk.body \in {"partial", "lost"}
 
 StartChain(ch, aft, content) ==
   /\ pc' = "chain" /\ chain' = ch /\ ci' = 1 /\ wdone' = FALSE /\ after' = aft /\ wcontent' = content
@@ -109,7 +129,7 @@ Fs(o) ==
               ELSE 0
          nj == IF IsWrite(o) THEN j ELSE j + 1
      IN /\ j # 0
-        /\ disk' = Apply(disk, o, wcontent)
+        /\ disk' = Apply(Complete(disk, chain, j), o, wcontent)
         /\ ci' = nj
         /\ wdone' = IsWrite(o)
         /\ pc' = IF nj > Len(chain) THEN after ELSE pc      \* no chain ends with a write
@@ -235,7 +255,7 @@ TAbortNoRcpt ==
 
 TBody(res) ==
   /\ up /\ pc = "rcpt" /\ idx > Len(to) /\ accepted # <<>> /\ ~cfg.partial
-  /\ obs' = DObsBody(obs, res)
+  /\ obs' = DObsIntact(DObsBody(obs, res), ~MayBeDamaged)
   /\ hist' = H([a |-> "TBody", res |-> res])
   /\ errs' = IF res = "ok" THEN errs
              ELSE [r \in Rcpts |-> IF r \in ToSet(accepted) THEN res ELSE errs[r]]
@@ -244,7 +264,7 @@ TBody(res) ==
 
 TBodyNA(st) ==
   /\ up /\ pc = "rcpt" /\ idx > Len(to) /\ accepted # <<>> /\ cfg.partial
-  /\ obs' = DObsBodyNA(obs, st)
+  /\ obs' = DObsIntact(DObsBodyNA(obs, st), ~MayBeDamaged)
   /\ hist' = H([a |-> "TBodyNA", st |-> st])
   /\ errs' = [r \in Rcpts |-> IF r \in DOMAIN st /\ st[r] # "ok" THEN st[r] ELSE errs[r]]
   /\ pc' = "decide"
@@ -285,8 +305,8 @@ Crash(strength, torn) ==
                THEN [disk EXCEPT !.metaNew = MF("torn", FALSE, <<>>, ZeroTries)] ELSE disk
          d2 == IF strength = "strong"
                THEN [d1 EXCEPT !.meta = Lose(@), !.metaNew = Lose(@),
-                               !.hdr = IF @ = "synced" THEN @ ELSE IF @ = "absent" THEN @ ELSE "dirty",
-                               !.body = IF @ = "synced" THEN @ ELSE IF @ = "absent" THEN @ ELSE "dirty"]
+                               !.hdr = IF @ = "dirty" THEN "lost" ELSE @,
+                               !.body = IF @ = "dirty" THEN "lost" ELSE @]
                ELSE d1
      IN disk' = d2
   /\ up' = FALSE /\ pc' = "down" /\ crashes' = crashes + 1
